@@ -158,7 +158,7 @@ fn ex_json(ex: &Exchange) -> Value {
 /// or None if the mutation degenerates to the authentic exchange.
 type Mutated = (String, Option<Vec<u8>>, Vec<u8>, Vec<u8>, u64, [u8; 32]);
 
-const N_STRUCT: usize = 29;
+const N_STRUCT: usize = 30;
 
 fn flip(v: &mut [u8], bit: usize) {
     v[bit / 8] ^= 1 << (bit % 8);
@@ -262,6 +262,16 @@ fn structural(ex: &Exchange, kind: usize, t: &mut Tape) -> Option<Mutated> {
             let mut other = ex.resp.clone();
             other.push(b' ');
             Some(("response body extended by one byte".into(), w(&plain), ex.req.clone(), other, id, ex.nonce))
+        }
+        29 => {
+            // a further ':'-separated component after the authentic hex(sig):hex(hash)
+            let extra = match t.choose(4) {
+                0 => String::new(),
+                1 => "x".to_string(),
+                2 => hex::encode(h_req),
+                _ => "00".to_string(),
+            };
+            base("authentic etag with a further ':' component appended", w(&format!("{plain}:{extra}")))
         }
         27 => {
             // the anti-XSSI guard put in front of the response body (the signed digest covers the body as received)
